@@ -392,10 +392,53 @@ def discharge(ob, axioms, timeout_ms=None, want_model=False):
                 s, r = _solve(ob, axioms + facts, RLIMIT, False, tmo)
     secs = time.time() - t0
     if r == z3.unsat:
+        _cross_check(ob, s)
         return "proved", secs, None
     if r == z3.sat:
         return "refuted", secs, (s.model() if want_model else None)
     return "unknown", secs, None
+
+
+XCHECK_SOLVERS = (("cvc5-1.0", ["/usr/bin/cvc5", "--tlimit=8000"]), ("z3-4.8.12", ["/usr/bin/z3", "-T:8", "-smt2"]))
+
+
+def _cross_check(ob, solver):
+    """thorough tier (PVC_XCHECK=<dir>): a seeded sample of the queries z3 5.1 found unsat is
+    written out as SMT-LIB and handed to the other installed solvers; 'sat' from any of them
+    is a disagreement (reported as a checker inconsistency, never as a violation)"""
+    out_dir = os.environ.get("PVC_XCHECK")
+    if not out_dir:
+        return
+    import subprocess
+    import tempfile
+    import zlib
+
+    try:
+        text = "(set-logic ALL)\n" + solver.to_smt2()
+        if zlib.crc32(text.encode()) % int(os.environ.get("PVC_XCHECK_EVERY", "6")) != 0:
+            return
+        rec = dict(obligation=ob.name, results={})
+        with tempfile.NamedTemporaryFile("w", suffix=".smt2", delete=False, dir=out_dir) as f:
+            f.write(text)
+            path = f.name
+        for name, cmd in XCHECK_SOLVERS:
+            try:
+                pr = subprocess.run(cmd + [path], capture_output=True, text=True, timeout=12)
+                first = (pr.stdout.strip().splitlines() or [""])[0].strip()
+                if first in ("sat", "unsat", "unknown"):
+                    rec["results"][name] = first
+                else:
+                    rec["results"][name] = "timeout" if ("timeout" in (pr.stdout + pr.stderr).lower() or not first) else "error"
+            except subprocess.TimeoutExpired:
+                rec["results"][name] = "timeout"
+        if "sat" in rec["results"].values():
+            rec["smt2"] = path
+        else:
+            os.unlink(path)
+        with open(os.path.join(out_dir, "results.%d.jsonl" % os.getpid()), "a") as f:
+            f.write(json.dumps(rec) + "\n")
+    except Exception:  # the cross-check never interferes with the verdict
+        pass
 
 
 def smt2_of(ob, axioms):
